@@ -8,7 +8,10 @@
      reference client        internal/app/referenceclient/impl.go (doUnary, serverStream, clientStream, bidiStream)
      gRPC reference client   internal/app/grpcclient/impl.go
    for the deterministic fragment of the suite schema (no delays, timeouts, cancellation, raw payloads,
-   size-limit directives: they cannot be written in [tcase]).  Results are C03's [result]s, so that C03's model of
+   size-limit directives: they cannot be written in [tcase]).  A test case may be a Connect GET case ([t_get]:
+   method IdempotentUnary with use_get_http_method, in a suite that relies_on_connect_get): its expectation
+   depends on the CODEC of the permutation (echoed query param encoding=proto|json), so [expected] takes the
+   codec, and the handlers take the query params they see.  Results are C03's [result]s, so that C03's model of
    results.go's assert applies to them directly.  What lies between the peers (connect-go / grpc-go / net/http) is
    the pair of Section variables [tr_req] / [tr_rsp]; C02_Spec states what is assumed of them, the extracted
    model instantiates them with the identity.  No proofs here. *)
@@ -27,7 +30,10 @@ Record rdef := mkRD { rd_headers : list header; rd_trailers : list header; rd_da
    4 some other linked message type, 5 an Any whose type URL does not resolve *)
 Record request := mkRq { rq_kind : N; rq_full : bool; rq_data : bytes; rq_def : option rdef }.
 (* stream types: 1 unary, 2 client stream, 3 server stream, 4 half-duplex bidi, 5 full-duplex bidi; 0 unspecified *)
-Record tcase := mkT { t_name : bytes; t_stype : N; t_reqheaders : list header; t_requests : list request }.
+(* t_get: use_get_http_method is set (and, for a unary case, the method is IdempotentUnary, whose request message
+   IdempotentUnaryRequest is message kind 0 like UnaryRequest); such cases live in a suite of their own that
+   relies_on_connect_get (relevant protocol: Connect only) *)
+Record tcase := mkT { t_name : bytes; t_stype : N; t_reqheaders : list header; t_requests : list request; t_get : bool }.
 
 Inductive outcome (A : Type) := Ok (a : A) | Err | Crash.
 Arguments Ok {A} a. Arguments Err {A}. Arguments Crash {A}.
@@ -53,7 +59,15 @@ Definition det_any (kb : N * bytes) : any :=
 Definition conv_err (e : xerr) (extra : list detail) : rpc_error :=
   mkE (xe_code e) (xe_msg e) (map (fun kb => DOther (det_any kb)) (xe_details e) ++ extra).
 
-Definition info (hdrs : list header) (reqs : list any) : reqinfo := mkRI hdrs None reqs [].
+(* RequestInfo with ConnectGetInfo.QueryParams = q (a nil ConnectGetInfo and an empty list are the same thing) *)
+Definition infoq (q hdrs : list header) (reqs : list any) : reqinfo := mkRI hdrs None reqs q.
+Definition info (hdrs : list header) (reqs : list any) : reqinfo := infoq [] hdrs reqs.
+
+(* codecs: 1 proto, 2 json (Codec enum); populateExpectedUnaryResponse: json iff CODEC_JSON, proto otherwise *)
+Definition codec_name (codec : N) : bytes := if codec =? 2 then bs "json" else bs "proto".
+(* the query params a GET case expects to be echoed: "message", "base64" and "compression" are left out on purpose *)
+Definition expected_query (codec : N) : list header :=
+  [mkH (bs "encoding") [codec_name codec]; mkH (bs "connect") [bs "v1"]].
 
 (* ------------------------------------------------------------------ *)
 (* the expectation generator                                          *)
@@ -71,8 +85,8 @@ Definition first_def (unary : bool) (reqs : list request) : firstdef :=
     else FErr
   end.
 
-Definition expected_unary (tc : tcase) : outcome result :=
-  let ri := info (t_reqheaders tc) (reqs_any (t_requests tc)) in
+Definition expected_unary (codec : N) (tc : tcase) : outcome result :=
+  let ri := infoq (if t_get tc then expected_query codec else []) (t_reqheaders tc) (reqs_any (t_requests tc)) in
   match first_def true (t_requests tc) with
   | FErr => Err
   | FNone => Ok (mkR [] [] [mkP [] ri] None None 0)
@@ -123,10 +137,11 @@ Definition expected_stream (tc : tcase) : outcome result :=
     end
   end.
 
-(* populateExpectedResponse *)
-Definition expected (tc : tcase) : outcome result :=
+(* populateExpectedResponse for one permutation: the test case as expanded under a config case with that codec
+   (the stream expectations never look at use_get_http_method) *)
+Definition expected (codec : N) (tc : tcase) : outcome result :=
   let st := t_stype tc in
-  if (st =? 1) || (st =? 2) then expected_unary tc
+  if (st =? 1) || (st =? 2) then expected_unary codec tc
   else if (st =? 3) || (st =? 4) || (st =? 5) then expected_stream tc
   else Err.
 
@@ -150,18 +165,26 @@ Fixpoint all_ok {A} (l : list (outcome A)) : outcome (list A) :=
 (* test cases whose stream type is none of the five known ones never match a config case: dropped silently *)
 Definition expandable (tc : tcase) : bool := (1 <=? t_stype tc) && (t_stype tc <=? 5).
 
-Definition load (tcs : list tcase) : outcome (list (bytes * result)) :=
+(* the GET cases form the suite "G" (relies_on_connect_get), the others the suite "V": a permutation's full name
+   starts with the suite name, so names have to be distinct within each suite only *)
+Definition suite_key (tc : tcase) : bytes := (if t_get tc then bs "G/" else bs "V/") ++ t_name tc.
+
+(* newTestCaseLibrary under config cases with the given codecs: every expandable test case is expanded once per
+   codec, populateExpectedResponses derives the expectation of every permutation *)
+Definition load (codecs : list N) (tcs : list tcase) : outcome (list (bytes * N * result)) :=
   if existsb (fun tc => is_nil (t_name tc)) tcs then Err
   else if existsb (fun tc => t_stype tc =? 0) tcs then Err
   else
     let live := filter expandable tcs in
-    if has_dup (map t_name live) then Err
-    else if is_nil live then Err
-    else match all_ok (map expected live) with
-         | Ok rs => Ok (combine (map t_name live) rs)
-         | Err => Err
-         | Crash => Crash
-         end.
+    if has_dup (map suite_key live) then Err
+    else if is_nil live || is_nil codecs then Err
+    else
+      let perms := flat_map (fun tc => map (fun c => (tc, c)) codecs) live in
+      match all_ok (map (fun p => expected (snd p) (fst p)) perms) with
+      | Ok rs => Ok (combine (map (fun p => (suite_key (fst p), snd p)) perms) rs)
+      | Err => Err
+      | Crash => Crash
+      end.
 
 (* ------------------------------------------------------------------ *)
 (* the servers: received request headers and messages -> wire         *)
@@ -173,8 +196,8 @@ Definition def_headers (d : option rdef) : list header := match d with Some d =>
 Definition def_trailers (d : option rdef) : list header := match d with Some d => rd_trailers d | None => [] end.
 
 (* parseUnaryResponseDefinition: payload or error *)
-Definition parse_unary (hdrs : list header) (d : option rdef) (reqs : list any) : payload + rpc_error :=
-  let ri := info hdrs reqs in
+Definition parse_unary (q hdrs : list header) (d : option rdef) (reqs : list any) : payload + rpc_error :=
+  let ri := infoq q hdrs reqs in
   match d with
   | None => inl (mkP [] ri)
   | Some d =>
@@ -193,9 +216,11 @@ Definition unary_wire (d : option rdef) (r : payload + rpc_error) : wire :=
 (* a unary or server-stream handler is invoked with exactly one message; anything else never reaches it *)
 Definition protocol_error : wire := mkW [] [] [] (Some (mkE 12 None [])).
 
-Definition srv_unary (hdrs : list header) (reqs : list request) : wire :=
+(* [q] everywhere below: req.Peer().Query / stream.Peer().Query as the handler sees it (createRequestInfo sets
+   ConnectGetInfo when it is not empty) *)
+Definition srv_unary (q hdrs : list header) (reqs : list request) : wire :=
   match reqs with
-  | [r] => unary_wire (rq_def r) (parse_unary hdrs (rq_def r) [req_any r])
+  | [r] => unary_wire (rq_def r) (parse_unary q hdrs (rq_def r) [req_any r])
   | _ => protocol_error
   end.
 
@@ -206,28 +231,28 @@ Fixpoint recv_all (incoming : list request) (first : bool) (d : option rdef) (ac
   | r :: more => recv_all more false (if first then rq_def r else d) (acc ++ [req_any r])
   end.
 
-Definition srv_client_stream (hdrs : list header) (reqs : list request) : wire :=
+Definition srv_client_stream (q hdrs : list header) (reqs : list request) : wire :=
   let '(d, got) := recv_all reqs true None [] in
-  unary_wire d (parse_unary hdrs d got).
+  unary_wire d (parse_unary q hdrs d got).
 
 (* responses numbered from resp_num on; request info only with response 0 *)
-Fixpoint flush (hdrs : list header) (reqs : list any) (resp_num : nat) (datas : list bytes) : list payload :=
+Fixpoint flush (q hdrs : list header) (reqs : list any) (resp_num : nat) (datas : list bytes) : list payload :=
   match datas with
   | [] => []
-  | d :: ds => mkP d (if Nat.eqb resp_num 0 then info hdrs reqs else empty_ri) :: flush hdrs reqs (S resp_num) ds
+  | d :: ds => mkP d (if Nat.eqb resp_num 0 then infoq q hdrs reqs else empty_ri) :: flush q hdrs reqs (S resp_num) ds
   end.
 
 (* the error returned at the end: request info appended exactly when no response was sent *)
-Definition final_err (hdrs : list header) (reqs : list any) (resp_num : nat) (d : rdef) : option rpc_error :=
-  option_map (fun e => conv_err e (if Nat.eqb resp_num 0 then [DReq (info hdrs reqs)] else [])) (rd_err d).
+Definition final_err (q hdrs : list header) (reqs : list any) (resp_num : nat) (d : rdef) : option rpc_error :=
+  option_map (fun e => conv_err e (if Nat.eqb resp_num 0 then [DReq (infoq q hdrs reqs)] else [])) (rd_err d).
 
-Definition srv_server_stream (hdrs : list header) (reqs : list request) : wire :=
+Definition srv_server_stream (q hdrs : list header) (reqs : list request) : wire :=
   match reqs with
   | [r] =>
     match rq_def r with
     | None => empty_wire
-    | Some d => mkW (rd_headers d) (rd_trailers d) (flush hdrs [req_any r] 0 (rd_data d))
-                    (final_err hdrs [req_any r] (length (rd_data d)) d)
+    | Some d => mkW (rd_headers d) (rd_trailers d) (flush q hdrs [req_any r] 0 (rd_data d))
+                    (final_err q hdrs [req_any r] (length (rd_data d)) d)
     end
   | _ => protocol_error
   end.
@@ -235,7 +260,7 @@ Definition srv_server_stream (hdrs : list header) (reqs : list request) : wire :
 (* BidiStream, full-duplex receive loop after the first message fixed the definition: a request arrives; if no
    response is left the loop breaks (keeping that request as the only one since the last response), otherwise
    response resp_num goes out echoing it (headers only with response 0) and the pending list is reset. *)
-Fixpoint full_loop (hdrs : list header) (resp_num : nat) (datas : list bytes) (incoming : list request) {struct incoming}
+Fixpoint full_loop (q hdrs : list header) (resp_num : nat) (datas : list bytes) (incoming : list request) {struct incoming}
   : list payload * nat * list bytes * list any (* sent, resp_num, data not yet sent, requests since the last response *) :=
   match incoming with
   | [] => ([], resp_num, datas, [])
@@ -243,12 +268,13 @@ Fixpoint full_loop (hdrs : list header) (resp_num : nat) (datas : list bytes) (i
     match datas with
     | [] => ([], resp_num, [], [req_any r])
     | d :: ds =>
-      let '(sent, rn, rest, pend) := full_loop hdrs (S resp_num) ds more in
-      (mkP d (info (if Nat.eqb resp_num 0 then hdrs else []) [req_any r]) :: sent, rn, rest, pend)
+      let '(sent, rn, rest, pend) := full_loop q hdrs (S resp_num) ds more in
+      (* the full request info (headers, query) with response 0 only; later ones carry RequestInfo{Requests} *)
+      (mkP d (if Nat.eqb resp_num 0 then infoq q hdrs [req_any r] else info [] [req_any r]) :: sent, rn, rest, pend)
     end
   end.
 
-Definition srv_bidi (hdrs : list header) (reqs : list request) : wire :=
+Definition srv_bidi (q hdrs : list header) (reqs : list request) : wire :=
   match reqs with
   | [] => empty_wire                               (* end of input at once: no definition, nothing to send *)
   | r0 :: _ =>
@@ -256,27 +282,28 @@ Definition srv_bidi (hdrs : list header) (reqs : list request) : wire :=
     | None => empty_wire
     | Some d =>
       if rq_full r0 then
-        let '(sent, rn, rest, pend) := full_loop hdrs 0 (rd_data d) reqs in
-        mkW (rd_headers d) (rd_trailers d) (sent ++ flush hdrs pend rn rest)
-            (final_err hdrs pend (rn + length rest) d)
+        let '(sent, rn, rest, pend) := full_loop q hdrs 0 (rd_data d) reqs in
+        mkW (rd_headers d) (rd_trailers d) (sent ++ flush q hdrs pend rn rest)
+            (final_err q hdrs pend (rn + length rest) d)
       else
         let got := snd (recv_all reqs true None []) in
-        mkW (rd_headers d) (rd_trailers d) (flush hdrs got 0 (rd_data d)) (final_err hdrs got (length (rd_data d)) d)
+        mkW (rd_headers d) (rd_trailers d) (flush q hdrs got 0 (rd_data d)) (final_err q hdrs got (length (rd_data d)) d)
     end
   end.
 
-Definition ref_server (st : N) (hdrs : list header) (reqs : list request) : wire :=
-  if st =? 1 then srv_unary hdrs reqs
-  else if st =? 2 then srv_client_stream hdrs reqs
-  else if st =? 3 then srv_server_stream hdrs reqs
-  else srv_bidi hdrs reqs.
+Definition ref_server (st : N) (q hdrs : list header) (reqs : list request) : wire :=
+  if st =? 1 then srv_unary q hdrs reqs
+  else if st =? 2 then srv_client_stream q hdrs reqs
+  else if st =? 3 then srv_server_stream q hdrs reqs
+  else srv_bidi q hdrs reqs.
 
-(* ---- grpcserver/impl.go: written separately, as the code is ---- *)
+(* ---- grpcserver/impl.go: written separately, as the code is; grpc-go knows no query string, its createRequestInfo
+   never sets ConnectGetInfo (the shared helpers of this model are used with q = []) ---- *)
 Definition g_unary (hdrs : list header) (reqs : list request) : wire :=
   match reqs with
   | [r] =>
     (* SendHeader / SetTrailer first, then parseUnaryResponseDefinition *)
-    match parse_unary hdrs (rq_def r) [req_any r] with
+    match parse_unary [] hdrs (rq_def r) [req_any r] with
     | inr e => mkW (def_headers (rq_def r)) (def_trailers (rq_def r)) [] (Some e)
     | inl p => mkW (def_headers (rq_def r)) (def_trailers (rq_def r)) [p] None
     end
@@ -292,7 +319,7 @@ Fixpoint g_recv_all (incoming : list request) (d : option (option rdef)) (acc : 
 Definition g_client_stream (hdrs : list header) (reqs : list request) : wire :=
   let '(d, got) := g_recv_all reqs None [] in
   let d := match d with Some d => d | None => None end in
-  match parse_unary hdrs d got with
+  match parse_unary [] hdrs d got with
   | inr e => mkW (def_headers d) (def_trailers d) [] (Some e)
   | inl p => mkW (def_headers d) (def_trailers d) [p] None
   end.
@@ -303,8 +330,8 @@ Definition g_server_stream (hdrs : list header) (reqs : list request) : wire :=
     match rq_def r with
     | None => empty_wire
     | Some d =>
-      let msgs := flush hdrs [req_any r] 0 (rd_data d) in
-      mkW (rd_headers d) (rd_trailers d) msgs (final_err hdrs [req_any r] (length msgs) d)
+      let msgs := flush [] hdrs [req_any r] 0 (rd_data d) in
+      mkW (rd_headers d) (rd_trailers d) msgs (final_err [] hdrs [req_any r] (length msgs) d)
     end
   | _ => protocol_error
   end.
@@ -338,7 +365,7 @@ Definition g_bidi (hdrs : list header) (reqs : list request) : wire :=
     | None => empty_wire
     | Some df =>
       let rest := skipn rn (rd_data df) in
-      mkW (rd_headers df) (rd_trailers df) (sent ++ flush hdrs pend rn rest) (final_err hdrs pend (rn + length rest) df)
+      mkW (rd_headers df) (rd_trailers df) (sent ++ flush [] hdrs pend rn rest) (final_err [] hdrs pend (rn + length rest) df)
     end
   end.
 
@@ -394,19 +421,25 @@ Definition grpc_client (st : N) (nreq : nat) (w : wire) : result :=
 (* ------------------------------------------------------------------ *)
 Section Run.
   Variable tr_req : list header -> list header.          (* request headers as the server's handler sees them *)
+  (* the query params the handler sees: whether the call goes out as a Connect GET, codec, compression of the
+     permutation -> Peer().Query (the reference client issues a GET exactly for a GET case) *)
+  Variable tr_query : bool -> N -> N -> list header.
   Variable tr_rsp : wire -> wire.                        (* the response as the client's library hands it over *)
-  Definition observed (server : N -> list header -> list request -> wire) (client : N -> nat -> wire -> result)
-             (tc : tcase) : result :=
+  Definition observed (server : N -> list header -> list header -> list request -> wire) (client : N -> nat -> wire -> result)
+             (codec comp : N) (tc : tcase) : result :=
     client (t_stype tc) (length (t_requests tc))
-           (tr_rsp (server (t_stype tc) (tr_req (t_reqheaders tc)) (t_requests tc))).
+           (tr_rsp (server (t_stype tc) (tr_query (t_get tc) codec comp) (tr_req (t_reqheaders tc)) (t_requests tc))).
 End Run.
+
+(* the gRPC server behind the common signature: whatever the query, it does not see one *)
+Definition grpc_server_q (st : N) (q hdrs : list header) (reqs : list request) : wire := grpc_server st hdrs reqs.
 
 (* what assert reads of the test case: stream type; no other acceptable codes in this fragment *)
 Definition case_def (tc : tcase) : def := mkD (t_stype tc) [].
 
-Definition verdict_errs tr_req tr_rsp server client (tc : tcase) : outcome (list errkind) :=
-  match expected tc with
-  | Ok e => Ok (assert_errs (case_def tc) e (observed tr_req tr_rsp server client tc))
+Definition verdict_errs tr_req tr_query tr_rsp server client (codec comp : N) (tc : tcase) : outcome (list errkind) :=
+  match expected codec tc with
+  | Ok e => Ok (assert_errs (case_def tc) e (observed tr_req tr_query tr_rsp server client codec comp tc))
   | Err => Err
   | Crash => Crash
   end.
@@ -456,7 +489,9 @@ Definition wf (tc : tcase) : bool :=
   && forallb (fun r => (rq_kind r =? kind_of_stype (t_stype tc))
                        && match rq_def r with Some d => wf_def d | None => true end) (t_requests tc)
   && first_full_ok tc
-  && (if (t_stype tc =? 1) || (t_stype tc =? 3) then Nat.eqb (length (t_requests tc)) 1 else true).
+  && (if (t_stype tc =? 1) || (t_stype tc =? 3) then Nat.eqb (length (t_requests tc)) 1 else true)
+  (* Connect GET is defined for unary calls only (IdempotentUnary is the one side-effect-free method) *)
+  && (negb (t_get tc) || (t_stype tc =? 1)).
 
 (* full-duplex stream, several requests, no response data, an error: the generator's expectation lists every
    request in the error's request info, the servers have seen only the first one when they must fail
@@ -486,9 +521,12 @@ Definition project (hs : list header) (names : list bytes) : list header :=
 Definition sx_header (h : header) : sx := L [B (h_name h); L (map B (h_vals h))].
 Definition sx_headers (hs : list header) : sx := L (map sx_header hs).
 Definition sx_any (a : any) : sx := L [sx_N (a_ty a); B (a_data a)].
+(* of the query params only these are compared ("message" and "base64" depend on the encoder) *)
+Definition query_names : list bytes := [bs "encoding"; bs "connect"; bs "compression"].
 Definition sx_info (rq : list bytes) (ri : reqinfo) : sx :=
   L [sx_headers (project (ri_headers ri) rq); L (map sx_any (ri_requests ri));
-     match ri_timeout ri with None => L [] | Some z => L [I z] end].
+     match ri_timeout ri with None => L [] | Some z => L [I z] end;
+     sx_headers (project (ri_query ri) query_names)].
 Definition sx_detail (rq : list bytes) (d : detail) : sx :=
   match d with
   | DOther a => L [I 0; B (type_url (a_ty a - 10)); B (a_data a)]
@@ -527,11 +565,15 @@ Definition un_request (s : sx) : option request :=
   | L [I k; I f; B d; df] => do df <- un_opt un_rdef df; ret (mkRq (Z.to_N k) (negb (f =? 0)%Z) d df)
   | _ => None
   end.
+(* (name stype reqheaders requests) or (name stype reqheaders requests get) *)
 Definition un_tcase (s : sx) : option tcase :=
   match s with
   | L [B n; I st; hs; rs] =>
     do hs <- un_listof un_header hs; do rs <- un_listof un_request rs;
-    ret (mkT n (Z.to_N st) hs rs)
+    ret (mkT n (Z.to_N st) hs rs false)
+  | L [B n; I st; hs; rs; I g] =>
+    do hs <- un_listof un_header hs; do rs <- un_listof un_request rs;
+    ret (mkT n (Z.to_N st) hs rs (negb (g =? 0)%Z))
   | _ => None
   end.
 
@@ -540,35 +582,42 @@ Definition rsp_names (tc : tcase) : list bytes :=
   flat_map (fun r => map lname (def_headers (rq_def r)) ++ map lname (def_trailers (rq_def r))) (t_requests tc).
 Definition req_names (tc : tcase) : list bytes := map lname (t_reqheaders tc).
 
-Definition sort_by_name (l : list (bytes * sx)) : list (bytes * sx) :=
-  let names := sort_bytes (map fst l) in
-  flat_map (fun n => match find (fun e => bytes_eqb (fst e) n) l with Some e => [e] | None => [] end) names.
+(* entries grouped by key, keys sorted; the entries of one key (one per codec) stay in their order *)
+Definition sort_by_key (l : list (bytes * sx)) : list (bytes * sx) :=
+  let keys := sort_bytes (dedup (map fst l)) in
+  flat_map (fun n => filter (fun e => bytes_eqb (fst e) n) l) keys.
 
-(* (tests) -> (err load) | crash | per loaded test, sorted by name: (name expected), the expectation projected on
-   every name it carries *)
+(* (tests) -> (err load) | crash | per permutation of the library built under the two codecs (proto, json), sorted by
+   suite/name, then codec: (suite/name codec expected), the expectation projected on every name it carries *)
+Definition expect_codecs : list N := [1; 2].
 Definition run_c02_expect (args : list sx) : sx :=
   or_bad (match args with
   | [ts] =>
     do tcs <- un_listof un_tcase ts;
-    match load tcs with
+    match load expect_codecs tcs with
     | Crash => ret sx_crash
     | Err => ret (sx_err "load")
     | Ok rs =>
-      ret (L (map (fun e => L [B (fst e); snd e])
-                  (sort_by_name (map (fun nr =>
+      ret (L (map snd
+                  (sort_by_key (map (fun nr =>
+                     let key := fst (fst nr) in
                      let r := snd nr in
-                     let tcn := find (fun tc => bytes_eqb (t_name tc) (fst nr)) (filter expandable tcs) in
+                     let tcn := find (fun tc => bytes_eqb (suite_key tc) key) (filter expandable tcs) in
                      let rq := match tcn with Some tc => req_names tc | None => [] end in
-                     (fst nr, sx_result rq (map lname (r_headers r) ++ map lname (r_trailers r)) r)) rs))))
+                     (key, L [B key; sx_N (snd (fst nr));
+                              sx_result rq (map lname (r_headers r) ++ map lname (r_trailers r)) r])) rs))))
     end
   | _ => None end).
 
 (* which config cases a pair of peers runs (C06/C07 and filterGRPCImplTestCases):
-   cfg = (http-version protocol codec compression tls) *)
-Definition applicable (grpc_cl grpc_sv : bool) (cfg : list Z) (st : N) : bool :=
+   cfg = (http-version protocol codec compression tls).  A GET case sits in the suite that relies_on_connect_get:
+   Connect only (expandSuite rejects anything else), identity only (the reference client never compresses a GET
+   request of this size: the maintainers' restriction in connect_with_get.yaml), hence never with a gRPC peer. *)
+Definition applicable (grpc_cl grpc_sv : bool) (cfg : list Z) (st : N) (get : bool) : bool :=
   match cfg with
   | [ver; proto; codec; comp; tls] =>
     negb ((ver =? 1)%Z && (st =? 5)) && negb ((proto =? 2)%Z && negb (ver =? 2)%Z) &&
+    (if get then (proto =? 1)%Z && (comp =? 1)%Z else true) &&
     (if grpc_cl || grpc_sv then
        negb (proto =? 1)%Z && (if grpc_cl then (proto =? 2)%Z else true) &&
        (if (proto =? 3)%Z then (ver =? 1)%Z || (ver =? 2)%Z else (ver =? 2)%Z) &&
@@ -584,31 +633,44 @@ Definition cfg_ok (cfg : list Z) : bool :=
      && ((1 <=? comp) && (comp <=? 6)) && ((tls =? 0) || (tls =? 1)))%Z
   | _ => false
   end.
+Definition cfg_codec (cfg : list Z) : N := Z.to_N (nth 2 cfg 0%Z).
+Definition cfg_comp (cfg : list Z) : N := Z.to_N (nth 3 cfg 0%Z).
 
 Definition id_hdrs (hs : list header) : list header := hs.
 Definition id_wire (w : wire) : wire := w.
+(* the query string of a Connect GET request as connect-go writes it (buildGetURL): connect=v1, encoding=<codec>,
+   message=<the request, opaque here>, base64=1 for a binary codec, compression only when the request was
+   compressed (never here); a POST has no query string *)
+Definition std_query (get : bool) (codec comp : N) : list header :=
+  if get then
+    (if codec =? 2 then [] else [mkH (bs "base64") [bs "1"]])
+    ++ [mkH (bs "connect") [bs "v1"]; mkH (bs "encoding") [if codec =? 2 then bs "json" else bs "proto"];
+        mkH (bs "message") [[]]]
+  else [].
 
 (* ((grpc-client grpc-server) (cfg ...) (test ...)) -> per config case in the given order, per applicable test in the
    given order: (name cfg verdict observed).  The verdict is the one the property demands of a well-formed case;
-   a case that is not well-formed is a bad case. *)
+   a case that is not well-formed is a bad case (so is a batch that uses one name twice: the harness looks results
+   up by name). *)
 Definition run_c02_live (args : list sx) : sx :=
   or_bad (match args with
   | [L [I gc; I gs]; L cfgs; ts] =>
     do tcs <- un_listof un_tcase ts;
     do cfgs <- un_list (un_listof un_I) cfgs;
     let gc := negb (gc =? 0)%Z in let gs := negb (gs =? 0)%Z in
-    if negb (forallb wf tcs) || negb (forallb cfg_ok cfgs) then None
-    else match load tcs with
+    if negb (forallb wf tcs) || negb (forallb cfg_ok cfgs) || has_dup (map t_name tcs) then None
+    else match load expect_codecs tcs with
     | Crash => ret sx_crash
     | Err => ret (sx_err "load")
     | Ok _ =>
-      let server := if gs then grpc_server else ref_server in
+      let server := if gs then grpc_server_q else ref_server in
       let client := if gc then grpc_client else ref_client in
       ret (L (flat_map (fun cfg =>
             map (fun tc =>
                    L [B (t_name tc); L (map I cfg); B (bs "pass");
-                      sx_result (req_names tc) (rsp_names tc) (observed id_hdrs id_wire server client tc)])
-                (filter (fun tc => applicable gc gs cfg (t_stype tc)) tcs)) cfgs))
+                      sx_result (req_names tc) (rsp_names tc)
+                                (observed id_hdrs std_query id_wire server client (cfg_codec cfg) (cfg_comp cfg) tc)])
+                (filter (fun tc => applicable gc gs cfg (t_stype tc) (t_get tc)) tcs)) cfgs))
     end
   | _ => None end).
 
